@@ -511,6 +511,10 @@ func init() {
 		checkQuantifierAbsent(r, prog, a, "c05")
 		r.importing = "C03"
 		checkConnectives(r, prog, a, "c03") // "… is an error": and stays one on its way up through not/and/or
+		if g5 := loadGrammars(r, prog); g5 != nil {
+			r.importing = "C07"
+			checkSelectorGrammar(r, NewGA(prog, g5.Tab), "c07") // "resolves" is said of the path that was written: `~1` in a pointer is the `/` of the key
+		}
 		r.importing = "C06"
 		checkQuantifier(r, prog, a, "c06") // a selector below a bound name is the selector of that element: the table applies to `x.absent` inside any/all as outside
 		r.importing = "C04"
@@ -519,6 +523,7 @@ func init() {
 		checkOptionConstructors(r, prog, "c18")   // the unknown value set is the value given: WithUnknownValue stores its argument unconditionally
 		checkEvaluatorPipeline(r, prog, a, "c18") // … and it is carried from creation to every evaluation (not through memory the caller still owns)
 		checkForwarding(r, prog, a, "c18")
+		checkGetOpts(r, prog, a, "c18") // … whatever else stands in the option list: a nil entry is skipped, it does not end the fold
 		r.importing = ""
 		r.Technique = "constant-table extraction (disposition switch) against the documented table; path-sensitive symbolic execution of the value lookup with the map-parent helper inlined and a struct-field memory model (gateway Config provenance); abstract execution of both consumers under {absent, lookup error}"
 		r.Explain = "Decides: the disposition table equals the documented one and is exhaustive; in the value lookup, not-present is returned only with a nil error and only on {lookup error is ErrNotFound (tested on the error of the final path), no unknown value, ≥2 parts, parent looked up with the same tag name/hook and all but the last part, parent kind is Map}; with an unknown value configured an ErrNotFound resolves to exactly that value before the parent is consulted; any other error is returned as an error; the unknown value is read nowhere else; both consumers return the disposition (match) / Op==ALL (quantifier) with a nil error and without consulting matcher or body. NOT decided: which lookups pointerstructure classifies as ErrNotFound."
